@@ -742,6 +742,7 @@ fn run_case(w: &Worker, h: &Honest, case: &Case, ranges: &[Rng]) -> Report {
             let msg = format!("{e:#}");
             rep.outcome(if msg.contains("does not match the computed message") { "digest-list:rejected(root not signed)" } else { "digest-list:rejected(unusable)" });
             rep.nontrivial(&("list-rejected", &case.db, &case.ops));
+            rep.sample(json!({"case": replay_of(None, None), "outcome": format!("digest list rejected: {msg}")}));
             if honest_case {
                 rep.violation(
                     "C10/honest-digest-list-rejected",
@@ -829,10 +830,18 @@ fn run_case(w: &Worker, h: &Honest, case: &Case, ranges: &[Rng]) -> Report {
                 rep.outcome(&format!("invalid-range:{label}"));
                 continue;
             };
-            rep.outcome(&label);
             rep.nontrivial(&(&case.db, &case.ops, r, allow));
+            if !accepted {
+                rep.outcome(&label);
+            }
             if accepted {
-                if let Some((key, what)) = judge_accepted(h, &st, &verified.digests, bounds, allow) {
+                let verdict = judge_accepted(h, &st, &verified.digests, bounds, allow);
+                rep.outcome(match (&verdict, honest_case) {
+                    (Some(_), _) => "accepted(VIOLATION)",
+                    (None, true) => "accepted(untampered)",
+                    (None, false) => "accepted(tampering harmless for this range)",
+                });
+                if let Some((key, what)) = verdict {
                     rep.violation(
                         key,
                         format!(
@@ -1249,20 +1258,22 @@ pub fn run(ctx: &Ctx) -> ! {
         loop {
             let w = new_worker(scratch.join(format!("w{i}")));
             set_mirror(&w, &apply(&probe_h, &[]));
-            let ok = w.rt.block_on(w.client.cardano_database_v2().download_and_verify_digests(&probe_h.certificate, &probe_h.snapshot));
+            // only where the client wants the digest file matters here, not what it makes of it
+            let res = catch(|| w.rt.block_on(w.client.cardano_database_v2().download_and_verify_digests(&probe_h.certificate, &probe_h.snapshot)));
             let target = w.mirror.last_target.lock().unwrap().clone();
-            match (ok, target) {
-                (Ok(_), Some(t)) if t.starts_with(&tmp) && seen_tmp.insert(t.clone()) => {
+            match target {
+                Some(t) if t.starts_with(&tmp) && seen_tmp.insert(t.clone()) => {
                     workers.push(w);
                     break;
                 }
-                (Ok(_), Some(t)) if tries < 20 => {
-                    // two clients built within the same microsecond share a temp dir name: rebuild
-                    let _ = t;
-                    tries += 1;
-                }
-                (r, t) => {
-                    rep.machinery_error(format!("cannot set up worker {i}: probe download {:?}, digest target {:?}", r.map(|_| ()).map_err(|e| format!("{e:#}")), t));
+                // two clients built within the same microsecond share a temp dir name: rebuild
+                Some(_) if tries < 20 => tries += 1,
+                t => {
+                    rep.machinery_error(format!(
+                        "cannot set up worker {i}: digest target {t:?} (expected a fresh directory under {}), probe result {:?}",
+                        tmp.display(),
+                        res.map(|r| r.map(|_| ()).map_err(|e| format!("{e:#}")))
+                    ));
                     rep.finish(ctx);
                 }
             }
@@ -1291,10 +1302,10 @@ pub fn run(ctx: &Ctx) -> ! {
     }
 
     // the database lattice
-    let (max_last, depth2_max_last): (u64, Option<u64>) = ctx.tier.pick((2, None), (3, Some(1)));
+    let (max_last, depth2_max_last): (u64, Option<u64>) = ctx.tier.pick((2, None), (3, Some(2)));
     let mut dbs = vec![];
     for last in 0..=max_last {
-        for (next_trio, list_beyond) in [(true, true), (true, false), (false, false), (false, true)] {
+        for (next_trio, list_beyond) in [(false, false), (true, false), (true, true), (false, true)] {
             dbs.push(Db { last, next_trio, list_beyond, dup: false });
         }
     }
@@ -1334,7 +1345,7 @@ pub fn run(ctx: &Ctx) -> ! {
         json!({
             "certified_trios": format!("1..={}", max_last + 1),
             "file_sizes_bytes": "4..=8",
-            "simultaneous_deviations": if depth2_max_last.is_some() { "1, hostile-mirror families, and all pairs (reduced alphabets) for databases of <= 2 trios" } else { "1 and hostile-mirror families" },
+            "simultaneous_deviations": if depth2_max_last.is_some() { "1, hostile-mirror families, and all pairs (reduced alphabets) for databases of <= 3 trios" } else { "1 and hostile-mirror families" },
         }),
     );
 
@@ -1346,8 +1357,15 @@ pub fn run(ctx: &Ctx) -> ! {
         }
         pool.with(|w| run_case(w, h, case, &ranges))
     });
-    for p in parts {
+    // samples: evenly spaced over the enumeration instead of its first few members
+    let mut all_samples = vec![];
+    for mut p in parts {
+        all_samples.append(&mut p.samples);
         rep.merge(p);
+    }
+    let step = (all_samples.len() / rep.max_samples).max(1);
+    for s in all_samples.into_iter().step_by(step) {
+        rep.sample(s);
     }
     let unexpected: u64 = pool.free.lock().unwrap().iter().map(|w| w.mirror.unexpected.load(Ordering::Relaxed)).sum();
     if unexpected > 0 {
